@@ -203,7 +203,7 @@ def run_ucase(side: H.Side, desc: dict):
     else:
         ob = struct.pack('<Q', off)
     o = side.upload_attempt(src, fsz, ob, kbps=desc.get('kbps', 0), cut=desc.get('cut'), peer_closes=desc.get('pc', True),
-                            close_kind=desc.get('close', 'eof'))
+                            close_kind=desc.get('close', 'eof'), osplit=desc.get('osplit'))
     findings = []
     wit = {'kind': 'u', 'desc': desc}
     o_int = off if isinstance(off, int) else None
@@ -224,7 +224,7 @@ def run_ucase(side: H.Side, desc: dict):
             findings.append(Finding('upload-left-in-processing-state', f'upload ended in UPLOADING (exc={o["exc"]})', wit, observed='UPLOADING', expected='terminal state'))
     m = len(wire)
     att = {'src': [seed, n], 'fsz': fsz, 'off': o_int, 'grant': H.GRANT_UNLIMITED if desc.get('kbps', 0) == 0 else H.GRANT_LIMITED,
-           'cut': desc.get('cut'), 'pc': desc.get('pc', True),
+           'cut': desc.get('cut'), 'pc': desc.get('pc', True), 'osp': desc.get('osplit'),
            'exp': (ustate_code(o), [seed, n, min(o_int or 0, n), m], o['bt'], o['failmsg']), 'state': o['state']}
     return att, findings
 
@@ -339,10 +339,41 @@ def coq_ucases(rows):
     items = []
     for cid, a in rows:
         st, wsp, bt, fm = a['exp']
-        items.append(f' ({cid}, ({a["src"][0]}, {a["src"][1]}), {a["fsz"]}, {optz(a["off"])}, {a["grant"]}, {optz(a["cut"])}, '
+        items.append(f' ({cid}, ({a["src"][0]}, {a["src"][1]}), {a["fsz"]}, {optz(a["off"])}, {a.get("osp") or 0}, {a["grant"]}, {optz(a["cut"])}, '
                      f'{"true" if a["pc"] else "false"}, ({st}, {spec_(wsp)}, {bt}, {"true" if fm else "false"}))')
     out.append(';\n'.join(items))
     out.append('].\nEval vm_compute in (bad_u cases).\n')
+    return '\n'.join(out)
+
+
+def pair_row(cid, desc, snap):
+    """The observed pair run as a case for Model.pair_run: the faults as the DOWNLOADER saw them
+    (bytes that reached the file before each break = difference of successive offsets)."""
+    offs = snap['offsets']
+    if not offs or any(o is None for o in offs):
+        return None
+    n = desc['src'][1]
+    l0 = desc.get('local0') or 0
+    flen = snap['file']
+    faults = []
+    for i, o in enumerate(offs):
+        nxt = offs[i + 1] if i + 1 < len(offs) else flen
+        if snap['broken'][i]:
+            faults.append((2 if snap['kinds'][i] == 'eof' else 1, nxt - o))
+        elif i + 1 < len(offs):
+            faults.append((1, nxt - o))      # an attempt that ended without an injected break and was retried
+    st = {'COMPLETE': 0, 'INCOMPLETE': 1}.get(snap['dl'], 2 if (snap['dl'] == 'FAILED' and snap['dl_reason'] == 'Cancelled') else 99)
+    return (cid, desc['src'], l0, faults, (flen, st, len(offs)))
+
+
+def coq_pcases(rows):
+    out = [HEADER, 'Definition cases : list pcase := [']
+    items = []
+    for cid, src, l0, faults, (flen, st, att) in rows:
+        fl = '[' + '; '.join(f'({k}, {z_(c)})' for k, c in faults) + ']'
+        items.append(f' ({cid}, ({src[0]}, {src[1]}), {l0}, {fl}, ({flen}, {st}, {att}))')
+    out.append(';\n'.join(items))
+    out.append('].\nEval vm_compute in (bad_p cases).\n')
     return '\n'.join(out)
 
 
@@ -479,6 +510,10 @@ def gen_ucases(run: Run):
             off = rng.choice([0, 0, n // 3])
             out.append({'src': [rng.randrange(251), n], 'fsz': 'src', 'off': off, 'kbps': gen_kbps(rng), 'cut': cut, 'pc': rng.random() < 0.8,
                         'close': 'eof'})
+    # the 8 offset bytes arrive in two segments: every split position, offsets with several non-zero bytes
+    for n, off, sps in [(1000, 258, range(1, 8)), (1000, 513, (1, 4)), (66100, 66051, (1, 2, 3))]:
+        for sp in sps:
+            out.append({'src': [rng.randrange(251), n], 'fsz': 'src', 'off': off, 'kbps': 0, 'cut': None, 'pc': True, 'close': 'eof', 'osplit': sp})
     nrand = 30 if run.tier == 'quick' else 400
     for _ in range(nrand):
         n = rng.choice(SIZES + [300, 1000])
@@ -695,7 +730,9 @@ def run(run: Run):
     evaluator.start()
 
     # 5. two real clients
-    for desc in gen_pairs(run):
+    pdescs = gen_pairs(run)
+    prows = []
+    for pid, desc in enumerate(pdescs):
         try:
             snap, fs = run_pair(desc)
         except Exception as e:
@@ -705,6 +742,21 @@ def run(run: Run):
             run.add_finding(f)
         run.case(desc, nontrivial=bool(desc.get('faults')) or desc['src'][1] > 8192, kind='pair')
         run.count('pair:' + snap['dl'] + '/' + str(snap['up']))
+        row = pair_row(pid, desc, snap)
+        if row is not None:
+            prows.append(row)
+    # the pair runs against Model.pair_run (retry policy): file length and bytes, final state, number of attempts
+    try:
+        bad = parse_bad(coq_eval_many('c04p', [coq_pcases(prows)], timeout=600)[0]) if prows else []
+        if bad is None:
+            raise BrokenTie('correspondence:C04 pair_run', 'no output')
+        for b in bad[:3]:
+            row = next(r for r in prows if r[0] == b[0])
+            run.add_broken('correspondence:C04 pair_run vs two real clients',
+                           f'{pdescs[b[0]]}: impl faults-as-seen={row[3]} (file length, state, attempts)={row[4]} model={b[1:]}')
+        run.cov['pair_runs_validated_against_model'] = len(prows) - len(bad)
+    except BrokenTie as e:
+        run.add_broken(e.obligation, e.detail)
     evaluator.join()
     prover.join()
     log(f'[C04] coq evaluation joined {_time.time()-_t0:.1f}s')
